@@ -43,6 +43,14 @@ var specs = map[string]spec{
 		Assumptions: append([]string{"a call that fails with a fatal error may leave a prefix of its own input as the last bytes of the stream; nothing else is tolerated",
 			"bytes missing at quiescence while nbio's queue is non-empty are attributed to C04 (stalled), with an empty queue to C01 (lost)"}, assumeKernel...),
 	},
+	"C02": {
+		World: "core", Level: "exploration", QuickS: 40, ThoroughS: 900,
+		Rule: "cases = full engine matrix {LT, ET, ET+ONESHOT} x {sync, async read} x {default, inline, goroutine-per-call, bounded pool IOExecute} x 1-3 pollers x ReadBufferSize {1,2,7,64,4Ki,64Ki} x MaxConnReadTimesPerEventLoop {default,1,2,3} x {tcp, unix, udp}; 1-3 connections (1-4 UDP remotes) with bursts sized around the read buffer, pauses, half-close / close / reset, optional echo and a concurrent application writer; kernel: in-flight delivery, short reads, EINTR, withheld readiness; non-trivial = some stream longer than the read buffer and a burst arrived while earlier input was still unread (stream) or >= 2 remotes and > 2 datagrams (udp); distinct = context-switch sequence hash",
+		Real: realCore, Stub: stubKernel,
+		Assumptions: append([]string{"completeness of delivery is demanded for connections that stay open or end orderly; for reset connections only prefix-correctness",
+			"UDP: only datagrams the listener's socket queue accepted count as sent; datagrams are <= ReadBufferSize",
+			"a progress-free fair phase dominated by reads/epoll_waits is reported as a spinning reader"}, assumeKernel...),
+	},
 	"C04": {
 		World: "core", Level: "exploration", QuickS: 40, ThoroughS: 900,
 		Rule: "same scenario as C01 biased to backlogs (peer stalls until the writers are done, tiny send capacity, writes from callbacks); after the last operation all faults stop, the scheduler is fair and the peer keeps reading: bounded liveness = at quiescence every accepted byte has arrived; non-trivial = a backlog existed; distinct = distinct context-switch sequence hash",
